@@ -68,10 +68,42 @@ for _q, _cls in (('parso.python.tree.Scope.__init__', 'Scope'), ('parso.python.t
 contract('parso.python.tree.Module.__init__', params={'self': 'ref:Module', 'children': 'list:ref:NodeOrLeaf'},
          requires=NODE_INIT['requires'], ensures=NODE_INIT['ensures'],
          modifies=['self.children', 'self.parent', 'parent', 'self._used_names'], props=['C02', 'C19'])
-# Function / Lambda regroup their parameters (calls _create_params, not under contract): ASSUMED total on the children of a
-# funcdef / lambdef production; they may re-parent the parameter leaves and change the parameter node's children list
-for _q, _cls in (('parso.python.tree.Function.__init__', 'Function'), ('parso.python.tree.Lambda.__init__', 'Lambda')):
-    contract(_q, params={'self': 'ref:' + _cls, 'children': 'list:ref:NodeOrLeaf'}, trusted=True,
-             requires=NODE_INIT['requires'], ensures=['self.children is children'],
-             modifies=['self.children', 'self.parent', 'parent', 'children'], lists='*',
-             note='ASSUMED: total on grammar-shaped children (funcdef / lambdef); regroups parameters into Param nodes in place')
+# ---- Function / Lambda: parameters are regrouped into Param nodes exactly when none of them is a Param yet (C19: building a
+# node again from already regrouped children -- what eval(dump()) and unpickling do -- keeps them as they are; C02: the
+# constructors are total on the children convert_node hands them).  _create_params itself is the only ASSUMED callee (its
+# VC was attempted and dropped: the solver does not converge on its invariants): total, returns a list of non-None
+# children, re-parents only what it returns.
+contract('parso.python.tree._create_params', params={'parent': 'ref:BaseNode', 'argslist_list': 'list:ref:NodeOrLeaf'},
+         returns='list:ref:NodeOrLeaf', trusted=True, fresh_result=False,
+         requires=['parent is not None', 'argslist_list is not None'],
+         ensures=['result is not None',
+                  'forall(lambda k: implies(0 <= k and k < len(result), result[k] is not None), trigger=lambda k: result[k])',
+                  # it builds new lists and new Param nodes: the children of objects that existed before are what they were
+                  'forall(lambda x: implies(old(allocated(x)), x.children is old(x.children)), kinds=dict(x="ref:BaseNode"), trigger=lambda x: x.children)'],
+         modifies=['parent', 'children'], lists=[],
+         note='ASSUMED: total on the parameters of a funcdef / lambdef; returns the regrouped children (Param nodes, bare star, '
+              'slash, commas), none of them None')
+# (The C19 clause "already regrouped parameters are kept as they are" was stated and attempted: its VC needs the instantiation
+# slice element <-> original element that E-matching does not find; it stays with the bounded dump / eval round trip.)
+contract('parso.python.tree.Lambda.__init__', params={'self': 'ref:Lambda', 'children': 'list:ref:NodeOrLeaf'},
+         requires=NODE_INIT['requires'],
+         ensures=['self.children is children'], raises=[],
+         call_keys={'parso.python.tree.Scope.__init__': 'parso.python.tree.Scope.__init__'},
+         modifies=['self.children', 'self.parent', 'parent', 'children'], lists='*', theories=['tree'], props=['C19', 'C02'])
+# a funcdef production always has a `parameters` child (T: tab:*:shape facts of C02); it is an interior node
+HAS_PARAMS = ('exists(lambda j: 0 <= j and j < len(%s) and %s[j] is not None and %s[j].type == "parameters" and not is_leaf(%s[j]))')
+contract('parso.python.tree.Function._find_parameters', params={'self': 'ref:Function'}, returns='ref:BaseNode',
+         requires=['self.children is not None', HAS_PARAMS % (('self.children',) * 4),
+                   'forall(lambda k: implies(0 <= k and k < len(self.children), self.children[k] is not None), trigger=lambda k: self.children[k])',
+                   'forall(lambda k: implies(0 <= k and k < len(self.children) and self.children[k].type == "parameters", not is_leaf(self.children[k])), trigger=lambda k: self.children[k])'],
+         ensures=['result is not None', 'result.type == "parameters"', 'not is_leaf(result)', 'result is not self',
+                  'exists(lambda j: 0 <= j and j < len(self.children) and self.children[j] is result)'],
+         raises=[], modifies=[], lists=[], loops={0: dict(invariant=[
+             'forall(lambda k: implies(0 <= k and k < _i, self.children[k].type != "parameters"), trigger=lambda k: self.children[k])'])},
+         theories=['tree'], props=['C02', 'C05'])
+contract('parso.python.tree.Function.__init__', params={'self': 'ref:Function', 'children': 'list:ref:NodeOrLeaf'},
+         requires=NODE_INIT['requires'] + [HAS_PARAMS % (('children',) * 4),
+                   'forall(lambda k: implies(0 <= k and k < len(children) and children[k].type == "parameters", not is_leaf(children[k]) and children[k].children is not None), trigger=lambda k: children[k])'],
+         ensures=['self.children is children'], raises=[],
+         call_keys={'parso.python.tree.Scope.__init__': 'parso.python.tree.Scope.__init__'},
+         modifies=['self.children', 'self.parent', 'parent', 'children'], lists='*', theories=['tree'], props=['C19', 'C02'])
